@@ -19,8 +19,11 @@ import (
 	"time"
 
 	"github.com/ipfs/go-cid"
+	carv2 "github.com/ipld/go-car/v2"
 	mh "github.com/multiformats/go-multihash"
 )
+
+func carv2NewBlockReader(f *os.File) (*carv2.BlockReader, error) { return carv2.NewBlockReader(f) }
 
 // ---------------------------------------------------------------- val accessors
 func vl(v Val) VL {
@@ -746,4 +749,148 @@ func runExtractCase(c *Ctx, in Val) Val {
 
 func init() {
 	registerReplay("extract", func(c *Ctx, in Val) Val { return runExtractCase(c, in) })
+}
+
+// ---------------------------------------------------------------- kind "createextract" (C18)
+//
+// input: (fs cwd outdir pathflag roots opts src srcpath dstpath)
+//   fs      = sandbox before extraction: source tree, empty output directory
+//   roots   = ((tn <utree>)): what `car create` builds from the source, as the walk sees it
+//   opts    = (n<version 1|2> n<no-wrap> n<mode: 0 -f file, 1 stdin from a file, 2 stdin from a pipe>)
+//   src     = (b<source argument of car create> ((b<digest> n<seed> n<len>) ...))   big-file recipes
+// observation: (status realroot fs-after (n<roots> n<printed = header root> n<root != proxy> n<root block present>))
+const proxyRootStr = "bafybeihdwdcefgh4dqkjv67uzcmw7ojee6xedzdetojuzjevtenxquvyku"
+
+func bigFileData(seed uint64, n int) []byte { return NewRNG(seed).Bytes(n) }
+
+func runCreateExtractCase(c *Ctx, in Val) Val {
+	sb := newSandbox(c)
+	defer sb.remove()
+	// regenerate big files from their recipes
+	recipes := map[string][]byte{}
+	for _, h := range vl(vnth(vnth(in, 6), 1)) {
+		recipes[string(vb(vnth(h, 0)))] = bigFileData(vn(vnth(h, 1)), int(vn(vnth(h, 2))))
+	}
+	fs := VL{}
+	for _, e := range vl(vnth(in, 0)) {
+		n := vnth(e, 1)
+		if vt(vnth(n, 0)) == "f" {
+			if d, ok := recipes[string(vb(vnth(n, 1)))]; ok {
+				e = VL{vnth(e, 0), VL{VT("f"), VB(d)}}
+			}
+		}
+		fs = append(fs, e)
+	}
+	sb.populate(fs)
+	var cwdp [][]byte
+	for _, x := range vl(vnth(in, 1)) {
+		cwdp = append(cwdp, vb(x))
+	}
+	cwdReal := sb.realPath(cwdp)
+	carDir, err := os.MkdirTemp(c.Work, "car")
+	if err != nil {
+		panic(err)
+	}
+	defer os.RemoveAll(carDir)
+	carPath := carDir + "/out.car"
+	opts := vnth(in, 5)
+	version := vn(vnth(opts, 0))
+	nowrap := vn(vnth(opts, 1)) != 0
+	mode := vn(vnth(opts, 2))
+	srcArg := string(sb.realStr(vb(vnth(vnth(in, 6), 0))))
+	args := []string{"create", "--version", strconv.FormatUint(version, 10)}
+	if nowrap {
+		args = append(args, "--no-wrap")
+	}
+	args = append(args, "-f", carPath, srcArg)
+	debug := os.Getenv("VERIF_CLI_DEBUG") != ""
+	res := runCar(c, cwdReal, nil, args...)
+	if debug {
+		fmt.Fprintf(os.Stderr, "car %q exit=%d stderr: %s\n", args, res.exit, res.stderr)
+	}
+	if res.exit != 0 {
+		return VL{VL{VT("create-failed")}, VL{VT("none")}, sb.snapshot(), VL{VN(0), VN(0), VN(0), VN(0)}}
+	}
+	// the root: what `car root` prints vs the header, read independently of the CLI
+	rootInfo := VL{VN(0), VN(0), VN(0), VN(0)}
+	if f, err := os.Open(carPath); err == nil {
+		if br, err := carv2NewBlockReader(f); err == nil {
+			rr := runCar(c, cwdReal, nil, "root", carPath)
+			printed := strings.Fields(string(rr.stdout))
+			rootInfo[0] = VN(len(br.Roots))
+			if len(br.Roots) == 1 {
+				rootInfo[1] = vbool(rr.exit == 0 && len(printed) == 1 && printed[0] == br.Roots[0].String())
+				rootInfo[2] = vbool(br.Roots[0].String() != proxyRootStr)
+				for {
+					blk, err := br.Next()
+					if err != nil {
+						break
+					}
+					if blk.Cid().Equals(br.Roots[0]) {
+						rootInfo[3] = VN(1)
+					}
+				}
+			}
+		}
+		f.Close()
+	}
+	outArg := string(sb.realStr(vb(vnth(in, 2))))
+	rrv := Val(VL{VT("none")})
+	probe := outArg
+	if !strings.HasPrefix(probe, "/") {
+		probe = cwdReal + "/" + probe
+	}
+	if r, err := filepath.EvalSymlinks(probe); err == nil {
+		if mp, ok := sb.modelPhys(r); ok {
+			rrv = VL{VT("some"), mp}
+		}
+	}
+	var xr cliResult
+	switch mode {
+	case 0:
+		xr = runCar(c, cwdReal, nil, "extract", "-f", carPath, outArg)
+	case 1:
+		xr = runCarStdinFile(c, cwdReal, carPath, "extract", outArg)
+	default:
+		data, err := os.ReadFile(carPath)
+		if err != nil {
+			panic(err)
+		}
+		xr = runCar(c, cwdReal, data, "extract", outArg)
+	}
+	if debug {
+		fmt.Fprintf(os.Stderr, "car extract (mode %d) exit=%d stderr: %s\n", mode, xr.exit, xr.stderr)
+	}
+	return VL{extractStatus(xr), rrv, sb.snapshot(), rootInfo}
+}
+
+// stdin connected to a regular file (seekable), as with `car extract dir < file.car`
+func runCarStdinFile(c *Ctx, dir, stdinPath string, args ...string) cliResult {
+	f, err := os.Open(stdinPath)
+	if err != nil {
+		panic(err)
+	}
+	defer f.Close()
+	ctx, cancel := context.WithTimeout(context.Background(), 120*time.Second)
+	defer cancel()
+	cmd := exec.CommandContext(ctx, c.CarBin, args...)
+	cmd.Dir = dir
+	cmd.Stdin = f
+	var so, se bytes.Buffer
+	cmd.Stdout = &so
+	cmd.Stderr = &se
+	err = cmd.Run()
+	res := cliResult{stdout: so.Bytes(), stderr: se.Bytes()}
+	if err != nil {
+		if ee, ok := err.(*exec.ExitError); ok {
+			res.exit = ee.ExitCode()
+		} else {
+			panic(err)
+		}
+	}
+	return res
+}
+
+func init() {
+	registerReplay("createextract", func(c *Ctx, in Val) Val { return runCreateExtractCase(c, in) })
 }
